@@ -234,6 +234,27 @@ func runC08(c *Ctx) {
 		return isConst && cst.Value == nil
 	})
 	c.R.Check(ok, "R08.1", "tokenizeStream: a non-EOF reader error is returned, with a nil document, before any other effect", p.Pos(read.Pos()), why, why)
+	// ... and it is the only error there is: the callers that read from memory treat an error of the tokenizer as impossible
+	// (Normalize panics on it, AddContent goes on with the nil document), so the tokenizer must not fail on its own account
+	{
+		nRet, own := 0, ""
+		for _, b := range ts.Blocks {
+			ret, isRet := b.Instrs[len(b.Instrs)-1].(*ssa.Return)
+			if !isRet || len(ret.Results) != 2 {
+				continue
+			}
+			nRet++
+			e := ret.Results[1]
+			if cst, isC := e.(*ssa.Const); isC && cst.Value == nil {
+				continue
+			}
+			if e != errVal {
+				own = p.Pos(ret.Pos())
+			}
+		}
+		c.R.Check(own == "" && nRet > 0, "R08.7", "tokenizeStream: the only error it returns is the reader's", p.Pos(ts.Pos()), fmt.Sprintf("%d returns: nil or the error of the window read", nRet),
+			"an error that is not the reader's is returned at "+own+": Normalize, Match and AddContent read from memory and treat a tokenizer error as impossible - Normalize panics, AddContent dereferences the nil document")
+	}
 	// classifiers used on the error are genuine EOF classifiers
 	nCl := 0
 	for _, call := range core.CallsIn(ts) {
